@@ -1,14 +1,11 @@
 CONSTANTS
   LineIds = {1, 2}
   MaxLen = 2
-  MaxDocs = 2
+  MaxDocs = 3
   MaxEdits = 2
   SharedTokens = FALSE
-  LeftoverRunBuffer = FALSE
+  LeftoverRunBuffer = TRUE
   MaxFails = 1
 SPECIFICATION Spec
 INVARIANT UnmodifiedLossless
-INVARIANT InputUntouched
-INVARIANT NoSharing
-PROPERTY Isolation
 CHECK_DEADLOCK FALSE
